@@ -489,10 +489,11 @@ package sqlite3
 //@   ghost execs int = 0
 //@   at call placeholders#*: ghost batches := batches + 1
 //@   at call Exec#*: assert every-delete-runs-on-this-transaction-and-none-after-a-failure: callarg0 == tx && !failed
-//@   at call Exec#1: assert simple-values-of-the-batch: execs == 4 * batches - 4 && contains(callarg1, "DELETE FROM `simple_entries`")
-//@   at call Exec#2: assert prefix-children-of-the-batch: execs == 4 * batches - 3 && contains(callarg1, "DELETE FROM `prefix_entries`")
-//@   at call Exec#3: assert leases-of-the-batch: execs == 4 * batches - 2 && contains(callarg1, "DELETE FROM `lease_entries`")
-//@   at call Exec#4: assert tracker-rows-of-the-batch-in-the-same-transaction: execs == 4 * batches - 1 && contains(callarg1, "DELETE FROM `key_trackers`")
+//@   at call Exec#*: assert every-delete-binds-exactly-the-keys-of-the-batch: len(callarg2) == len(batch)
+//@   at call Exec#1: assert simple-values-of-the-batch: execs == 4 * batches - 4 && callarg1 == "DELETE FROM `simple_entries` WHERE `key` IN (" + ph + ")"
+//@   at call Exec#2: assert prefix-children-of-the-batch: execs == 4 * batches - 3 && callarg1 == "DELETE FROM `prefix_entries` WHERE `prefix` IN (" + ph + ")"
+//@   at call Exec#3: assert leases-of-the-batch: execs == 4 * batches - 2 && callarg1 == "DELETE FROM `lease_entries` WHERE `owner` IN (" + ph + ")"
+//@   at call Exec#4: assert tracker-rows-of-the-batch-in-the-same-transaction: execs == 4 * batches - 1 && callarg1 == "DELETE FROM `key_trackers` WHERE `key` IN (" + ph + ")"
 //@   at after call Exec#*: ghost failed := failed || callresult1 != nil
 //@   at after call Exec#*: ghost execs := execs + 1
 //@   ensures local-success-means-every-batch-lost-data-and-tracker-rows-together: err == nil ==> (!failed && execs == 4 * batches)
